@@ -725,6 +725,9 @@ pub fn command(cmd: &str, args: &[String]) {
             match bad { None => println!("{{\"outcome\":\"ok\"}}"), Some(e) => println!("{{\"outcome\":\"panic\",\"message\":{:?}}}", e) }
         }
         "api" if args.get(0).map(|s| s.as_str()) == Some("strings") => api_strings(&args[1..]),
+        "api" if args.get(0).map(|s| s.as_str()) == Some("editconform") => api_editconform(&args[1..]),
+        "api" if args.get(0).map(|s| s.as_str()) == Some("editconform1") => api_editconform1(&args[1..]),
+        "api" if args.get(0).map(|s| s.as_str()) == Some("editprobe") => api_editprobe(&args[1..]),
         "api" if args.get(0).map(|s| s.as_str()) == Some("roundtripgen") => api_roundtripgen(&args[1..]),
         "api" if args.get(0).map(|s| s.as_str()) == Some("holes") => api_holes(&args[1..]),
         "api" if args.get(0).map(|s| s.as_str()) == Some("compat") => api_compat(&args[1..]),
